@@ -232,11 +232,15 @@ class NotApplicable(Exception):
 
 class Gen:
     def __init__(self, rng, ntables=3, max_tr=6, nlets=None, kinds=None, declared=True, shared_k=True,
-                 append_inline=False, open_take=True, dup_names=True, forced=None, literal=False, functions=False, simple_sort=False):
+                 append_inline=False, open_take=True, dup_names=True, forced=None, literal=False, functions=False, simple_sort=False,
+                 shapes=False, force_shape=None):
         self.rng = rng
         self.forced = forced
         self.simple_sort = simple_sort
         self.functions = functions
+        # shapes: also generate inline sub-pipelines as join sides, joins that equate every column, group pipelines that end in a
+        # select / derive, and `append <let-table>`; force_shape: set of shape names that are always chosen when applicable
+        self.shapes, self.force_shape = shapes, set(force_shape or ())
         self.shared_k, self.append_inline, self.open_take, self.dup_names = shared_k, append_inline, open_take, dup_names
         self.schema = Schema(rng, ntables, shared_k, literal)
         self.max_tr = max_tr
@@ -303,6 +307,55 @@ class Gen:
     def unique_names(self, frame):
         names = [c.name for c in frame]
         return len(set(names)) == len(names)
+
+    def want(self, shape, p):
+        """is the optional shape chosen here?"""
+        if not self.shapes:
+            return False
+        if shape in self.force_shape:
+            return True
+        return self.rng.random() < p
+
+    def sub_pipeline(self, exclude_name, kinds=("select", "derive", "filter"), maxlen=3, forced=None):
+        """an inline pipeline over some other source (no take / sort / nested relations): (src kind, idx, text, sx, frame) or None"""
+        srcs = [s for s in self.sources() if s[2] != exclude_name]
+        if not srcs:
+            return None
+        save = (getattr(self, "cur_sort", None), getattr(self, "_sort_after", "keep"))
+        try:
+            ch = self.rng.choice(srcs)
+            seq = forced or [self.rng.choice(kinds) for _ in range(self.rng.randint(1, maxlen))]
+            try:
+                (kind, idx), frame, text, sx, _ = self.pipeline(first_choice=ch, forced=list(seq))
+            except NotApplicable:
+                return None
+        finally:
+            self.cur_sort, self._sort_after = save
+        if not self.unique_names(frame):
+            return None
+        return kind, idx, text, sx, frame
+
+    def fitted_pipeline(self, exclude_name, tys):
+        """an inline pipeline `from u | select {q0 = .., q1 = ..}` whose columns have exactly the types `tys`"""
+        srcs = [s for s in self.sources() if s[2] != exclude_name]
+        same = getattr(self, "force_same", False)
+        if same:
+            # the same base table on both sides, column by column (identical rows, NULLs and duplicates included)
+            srcs = [s for s in self.sources() if s[0] == "base" and [c.ty for c in s[3]] == list(tys)]
+        if not srcs or not all(t in (INT, TXT) for t in tys):
+            return None
+        kind, idx, rname, rframe = self.rng.choice(srcs)
+        eg = ExprGen(self.rng, rframe, depth=1)
+        items, sx, nf = [], [], []
+        for j, t in enumerate(tys):
+            e = eg.col(t) if self.rng.random() < 0.8 else None
+            e = e or eg.gen(t, 1)
+            if same:
+                e = (rframe[j].ref, f"( col {j} )", t)
+            items.append(f"q{j} = {e[0]}")
+            sx.append(e[1])
+            nf.append(Col(f"q{j}", t))
+        return kind, idx, [f"from {rname}", "select {" + ", ".join(items) + "}"], ["( select ( " + " ".join(sx) + " ) )"], nf
 
     # -- transforms: return (prql, sexp, new frame) or None
     def tr_select(self, frame, sname):
@@ -522,8 +575,74 @@ class Gen:
         inner.append(f"take {t}")
         o = lambda x: "-" if x is None else str(x)
         nf = [frame[i].copy() for i in ks] + [c.copy() for i, c in enumerate(frame) if i not in ks]
+        extra = ""
+        rest = list(range(len(ks), len(nf)))
+        if rest and self.want("group_inner", 0.25):
+            # the group pipeline goes on after the take: the keys stay in front, the rest is what the inner pipeline leaves
+            if rng.random() < 0.6:
+                sel = sorted(rng.sample(rest, rng.randint(1, len(rest))))
+                if rng.random() < 0.5:
+                    rng.shuffle(sel)
+                inner.append("select {" + ", ".join(nf[i].ref for i in sel) + "}")
+                extra = " ( select ( " + " ".join(f"( col {i} )" for i in list(range(len(ks))) + sel) + " ) )"
+                nf = [nf[i] for i in list(range(len(ks))) + sel]
+            else:
+                hidden = [c if i >= len(ks) else c.copy(ty="excluded", key=False) for i, c in enumerate(nf)]
+                e = ExprGen(rng, hidden, depth=1).gen(rng.choice([INT, INT, TXT]))
+                nm = self.name()
+                inner.append(f"derive {{{nm} = {e[0]}}}")
+                extra = f" ( derive ( {e[1]} ) )"
+                nf = nf + [Col(nm, e[2])]
         return ("group {" + ", ".join(frame[i].ref for i in ks) + "} (" + " | ".join(inner) + ")",
-                "( group_take ( " + " ".join(map(str, ks)) + " ) ( " + " ".join(sk[1] if sk else []) + f" ) {o(lo)} {o(hi)} )", nf)
+                "( group_take ( " + " ".join(map(str, ks)) + " ) ( " + " ".join(sk[1] if sk else []) + f" ) {o(lo)} {o(hi)} )" + extra, nf)
+
+    def tr_distinct(self, frame, sname):
+        """`group {every column} (take 1)`: the rows made distinct (the compiler emits SELECT DISTINCT)"""
+        if not self.unique_names(frame) or not frame:
+            return None
+        n = len(frame)
+        return ("group {" + ", ".join(c.ref for c in frame) + "} (take 1)",
+                "( group_take ( " + " ".join(map(str, range(n))) + " ) (  ) - 1 )", [c.copy() for c in frame])
+
+    def tr_select_left(self, frame, sname):
+        """after a join: keep some columns of the left side only (what the INTERSECT / EXCEPT rewrites look for)"""
+        nl = getattr(self, "last_join_left", None)
+        if not nl or nl > len(frame):
+            return None
+        keep = sorted(self.rng.sample(range(nl), self.rng.randint(1, nl))) if self.rng.random() < 0.5 else list(range(nl))
+        if len({frame[i].name for i in keep}) != len(keep):
+            return None
+        return ("select {" + ", ".join(frame[i].ref for i in keep) + "}", "( select ( " + " ".join(f"( col {i} )" for i in keep) + " ) )",
+                [frame[i].copy(ref=frame[i].name) for i in keep])
+
+    def tr_select_mixed(self, frame, sname):
+        """after a join: all columns of the left and SOME of the right"""
+        nl = getattr(self, "last_join_left", None)
+        if not nl or nl >= len(frame):
+            return None
+        right = list(range(nl, len(frame)))
+        keep = list(range(nl)) + sorted(self.rng.sample(right, self.rng.randint(1, max(1, len(right) - 1))))
+        nf = []
+        items = []
+        for j, i in enumerate(keep):
+            nm = self.name("m")
+            items.append(f"{nm} = {frame[i].ref}")
+            nf.append(Col(nm, frame[i].ty))
+        return ("select {" + ", ".join(items) + "}", "( select ( " + " ".join(f"( col {i} )" for i in keep) + " ) )", nf)
+
+    def tr_filter_rnull(self, frame, sname):
+        """after a left join: keep the rows without a partner (the anti-join shape of the EXCEPT rewrite)"""
+        nl = getattr(self, "last_join_left", None)
+        if not nl or nl >= len(frame):
+            return None
+        if self.rng.random() < 0.5:
+            idx = list(range(nl, len(frame)))
+            sx = f"( isnull ( col {idx[0]} ) )"
+            for i in idx[1:]:
+                sx = f"( and {sx} ( isnull ( col {i} ) ) )"
+            return ("filter " + " && ".join(f"{frame[i].ref} == null" for i in idx), f"( filter {sx} )", frame)
+        i = self.rng.randrange(nl, len(frame))
+        return (f"filter {frame[i].ref} == null", f"( filter ( isnull ( col {i} ) ) )", frame)
 
     # -- window functions (C04)
     def tr_window(self, frame, sname):
@@ -639,17 +758,37 @@ class Gen:
     def tr_join(self, frame, sname):
         rng = self.rng
         srcs = [s for s in self.sources() if s[2] != sname]
+        forced_src = getattr(self, "force_source", None)
+        if forced_src:
+            srcs = [s for s in self.sources() if s[2] == forced_src]
         if not srcs:
             return None
         kind, idx, rname, rframe = rng.choice(srcs)
+        rtext, inline, all_eq = None, False, False
+        if forced_src:
+            pass
+        elif self.want("join_all", 0.08) and 2 <= len(frame) <= 4 and self.unique_names(frame):
+            sp = self.fitted_pipeline(sname, [c.ty for c in frame])
+            if sp:
+                inline, all_eq = True, True
+        elif self.want("join_inline", 0.3):
+            sp = self.sub_pipeline(sname)
+            if sp:
+                inline = True
+        if inline:
+            kind_, idx_, text_, sx_, rframe = sp
+            self.lets.append((f"_h{len(self.lets)}", [], "", f"( ( {kind_} {idx_} ) ( " + " ".join(sx_) + " ) )"))
+            kind, idx, rname = "ref", len(self.lets) - 1, self.name("s")
+            rtext = f"{rname}=(" + " | ".join(text_) + ")"
+            rframe = [c.copy(ref=c.name) for c in rframe]
         # names on the left that clash with right names must be referable: give up if the left already has such a clash
         lnames = {c.name for c in frame}
-        if not self.dup_names and (lnames & {c.name for c in rframe}):
+        if not self.dup_names and not forced_src and (lnames & {c.name for c in rframe}):
             return None
         rframe2 = []
         for c in rframe:
             ref = f"{rname}.{c.name}"
-            rframe2.append(c.copy(ref=ref if (c.name in lnames or c.name == "k" or not self.declared) else c.name, key=False))
+            rframe2.append(c.copy(ref=ref if (c.name in lnames or c.name == "k" or not self.declared or inline) else c.name, key=False))
         lframe = []
         rnames = {c.name for c in rframe}
         for c in frame:
@@ -670,21 +809,34 @@ class Gen:
         # `this`/`that` are not needed: references are unambiguous by construction
         cond_t = f"{lframe[a].ref} == {rframe2[b].ref}"
         cond_s = f"( eq ( col {a} ) ( col {len(lframe) + b} ) )"
-        if lframe[a].name == rframe2[b].name and rng.random() < 0.5 and \
+        if all_eq:
+            # every column of the left equated with the column of the right at the same position
+            cond_t = " && ".join(f"{l.ref} == {r_.ref}" for l, r_ in zip(lframe, rframe2))
+            cond_s = f"( eq ( col 0 ) ( col {len(lframe)} ) )"
+            for j in range(1, len(lframe)):
+                cond_s = f"( and {cond_s} ( eq ( col {j} ) ( col {len(lframe) + j} ) ) )"
+            if side not in ("inner", "left"):
+                side = "inner"
+            if getattr(self, "force_side", None):
+                side = self.force_side
+        elif lframe[a].name == rframe2[b].name and rng.random() < 0.5 and \
                 sum(1 for c in lframe if c.name == lframe[a].name) == 1 and sum(1 for c in rframe2 if c.name == lframe[a].name) == 1:
             cond_t = f"=={lframe[a].name}"
         elif rng.random() < 0.3:
             e = ExprGen(rng, nf, depth=1).gen(BOOL)
             cond_t = f"{cond_t} && {e[0]}"
             cond_s = f"( and {cond_s} {e[1]} )"
+        if getattr(self, "force_side", None):
+            side = self.force_side
+        self.last_join_left = len(lframe)
         side_t = "" if side == "inner" and rng.random() < 0.5 else f"side:{side} "
-        return (f"join {side_t}{rname} ({cond_t})",
+        return (f"join {side_t}{rtext or rname} ({cond_t})",
                 f"( join {side} ( {kind} {idx} ) {len(lframe)} {len(rframe2)} {cond_s} )", nf)
 
     def tr_append(self, frame, sname):
         rng = self.rng
         tys = [c.ty for c in frame]
-        if self.append_inline and rng.random() < 0.7 and all(t in (INT, TXT, BOOL) for t in tys):
+        if self.append_inline and not getattr(self, "force_source", None) and rng.random() < 0.7 and all(t in (INT, TXT, BOOL) for t in tys):
             # bottom relation built to fit the top frame: an inline pipeline over some source with one expression per column
             kind, idx, rname, rframe = rng.choice(self.sources())
             eg = ExprGen(rng, rframe, depth=1)
@@ -699,10 +851,15 @@ class Gen:
             nf = [c.copy(key=False) for c in frame]
             return (f"append (from {rname} | select {{" + ", ".join(items) + "})", f"( append ( ref {len(self.lets) - 1} ) )", nf)
         srcs = [s for s in self.sources() if [c.ty for c in s[3]] == tys]
+        forced_src = getattr(self, "force_source", None)
+        if forced_src:
+            srcs = [s for s in srcs if s[2] == forced_src]
         if not srcs:
             return None
         kind, idx, rname, rframe = rng.choice(srcs)
         nf = [c.copy(key=False) for c in frame]
+        if kind == "ref" and (forced_src or self.want("append_let", 0.5)):
+            return (f"append {rname}", f"( append ( {kind} {idx} ) )", nf)
         if self.append_inline:
             # bottom relation as an inline pipeline with an explicit projection
             cols = ", ".join(c.ref for c in rframe)
@@ -828,6 +985,131 @@ def systematic_let_cases(maxlen, profile, seed=9, kinds=("sort", "take", "filter
                         continue
                     finally:
                         ExprGen.functions = False
+    return out
+
+
+def diamond_cases(profile, seed=13, variants=1, tails=(None, "filter", "take", "select", "sort", "aggregate")):
+    """one relation read several times (seed-independent enumeration):
+      `let p0 = (from t | PRE)`, `let a0 = (from p0 | S1)`, `let b0 = (from p0 | S2)`, `from a0 | join b0 (..)` / `from a0 | append b0`;
+      `from t | append p0 | append p0` and `from t | append p0 | join p0 (..)` (the first compiled reference is an append);
+    each followed by an optional tail transform that forces another SELECT"""
+    import itertools, zlib
+    out = []
+    pres = [("sort",), ("filter",), ("select",), ("derive",), ("sort", "take"), ("take",), ("group_agg",), ("sort", "derive")]
+    keep = [("take",), ("filter",), ("sort", "take"), ("sort",)]          # frame-preserving
+    other = keep + [("derive",), ("select",), ("sort", "take", "derive")]
+
+    def attempt(key, build):
+        for v in range(variants):
+            for att in range(4):
+                rng = random.Random(zlib.crc32(repr((seed, v, att) + key).encode()))
+                try:
+                    g = Gen(rng, nlets=0, **profile)
+                    r = build(g)
+                    c = Case(g.schema, g.declared, [(nm, t, sxx) for nm, _, t, sxx in g.lets], r[0], r[2], r[3], r[4], g.trace)
+                    c.functions = g.functions
+                    c.db = gen_db(rng, g.schema)
+                    c.seq = key
+                    out.append(c)
+                    break
+                except NotApplicable:
+                    continue
+
+    def let(g, name, first, forced):
+        (kind, idx), frame, text, sx, _ = g.pipeline(first_choice=first, forced=list(forced))
+        if not g.unique_names(frame):
+            raise NotApplicable("names")
+        frame = [c.copy(ref=c.name) for c in frame]
+        g.lets.append((name, frame, " | ".join(text), f"( ( {kind} {idx} ) ( " + " ".join(sx) + " ) )"))
+        return ("ref", len(g.lets) - 1, name, frame)
+
+    def main(g, first, forced, src):
+        g.force_source = src
+        try:
+            return g.pipeline(first_choice=first, forced=list(forced))
+        finally:
+            g.force_source = None
+
+    for pre in pres:
+        for s1, s2 in itertools.product(other, repeat=2):
+            for op in ("join", "append"):
+                if op == "append" and (s1 not in keep or s2 not in keep):
+                    continue
+                for tail in tails:
+                    def build(g, pre=pre, s1=s1, s2=s2, op=op, tail=tail):
+                        base = [s_ for s_ in g.sources() if s_[0] == "base"][0]
+                        p0 = let(g, "p0", base, pre)
+                        a0 = let(g, "a0", p0, s1)
+                        b0 = let(g, "b0", p0, s2)
+                        r = main(g, a0, [op], "b0")
+                        if tail:
+                            save = g.lets
+                            (k_, i_), fr, tx, sx, frs = r
+                            g.force_source = None
+                            t_ = None
+                            for _a in range(6):
+                                t_ = getattr(g, "tr_" + tail)(fr, "a0")
+                                if t_:
+                                    break
+                            if not t_:
+                                raise NotApplicable(tail)
+                            r = ((k_, i_), t_[2], tx + [t_[0]], sx + [t_[1]], frs + [t_[2]])
+                        return r
+                    attempt(("diamond", pre, s1, s2, op, tail), build)
+    for pre in keep:
+        for second in ("append", "join"):
+            for tail in tails:
+                def build(g, pre=pre, second=second, tail=tail):
+                    base = [s_ for s_ in g.sources() if s_[0] == "base"][0]
+                    p0 = let(g, "p0", base, pre)
+                    r = main(g, base, ["append", second], "p0")
+                    if tail:
+                        (k_, i_), fr, tx, sx, frs = r
+                        t_ = None
+                        for _a in range(6):
+                            t_ = getattr(g, "tr_" + tail)(fr, base[2])
+                            if t_:
+                                break
+                        if not t_:
+                            raise NotApplicable(tail)
+                        r = ((k_, i_), t_[2], tx + [t_[0]], sx + [t_[1]], frs + [t_[2]])
+                    return r
+                attempt(("append-first", pre, second, tail), build)
+    return out
+
+
+def setop_cases(profile, seed=21, variants=2):
+    """the shapes the back end rewrites to set operations / DISTINCT (seed-independent): a join equating EVERY column of both sides
+    (inner -> INTERSECT, left + `filter right == null` -> EXCEPT), followed by a projection of the left side, of both sides, or none,
+    with `group {all} (take 1)` (DISTINCT) before and / or after; `c.set_compare` marks programs whose result is a set"""
+    import itertools, zlib
+    out = []
+    pre = [(), ("select",), ("distinct",), ("select", "distinct"), ("filter",)]
+    mid = {"inner": [("select_left",), ("select_mixed",), (), ("select_left", "distinct"), ("distinct", "select_left"), ("select_left", "filter"),
+                     ("select_left", "sort"), ("select_left", "take")],
+           "left": [("filter_rnull", "select_left"), ("filter_rnull", "select_left", "distinct"), ("filter_rnull",), ("select_left",),
+                    ("filter_rnull", "select_mixed"), ("filter_rnull", "distinct", "select_left")]}
+    for side in ("inner", "left"):
+        for p_, m_ in itertools.product(pre, mid[side]):
+            seq = p_ + ("join",) + m_
+            for v in range(variants):
+                for att in range(5):
+                    rng = random.Random(zlib.crc32(repr((seed, v, att, side) + seq).encode()))
+                    try:
+                        g = Gen(rng, forced=list(seq), nlets=0, **dict(profile, shapes=True, force_shape=["join_all"]))
+                        g.force_side = side
+                        g.force_same = (v % 2 == 1)
+                        c = g.program()
+                        if not any(" && " in t_ and "=(from" in t_ for t_ in c.text):
+                            raise NotApplicable("join_all not applicable")
+                        c.db = gen_db(rng, g.schema)
+                        # many equal rows and NULLs on both sides: copy rows of the first table into the others where the widths agree
+                        c.seq = ("setop", side) + seq
+                        c.set_compare = "distinct" in m_[-1:] or False
+                        out.append(c)
+                        break
+                    except NotApplicable:
+                        continue
     return out
 
 
